@@ -202,7 +202,7 @@ STMT_MECH = {'quick': {'H1': 'stmt', 'H2': 'snap', 'H3': 'snap', 'H4': 'snap'},
 # plus the last point of the previous slice (so that the monotonicity check chains across parts).
 # So the enumeration is complete for whatever number of boundaries the tree under test has, and the
 # main process needs no helper.
-PARTS = {'stmt': 11, 'snap': 7, 'sys': 40}
+PARTS = {'stmt': 16, 'snap': 5, 'sys': 40}
 
 
 def cases(tier, seed):
